@@ -102,10 +102,12 @@ def abs_items(spec):
             items.append((e[1], e[2], TYPE_ORDER["cc"], -1, "cc", (e[2], e[3], e[4])))
         elif k == "pc":
             items.append((e[1], e[2], TYPE_ORDER["pc"], -1, "pc", (e[2], e[3])))
-        elif k == "ts":
-            items.append((e[1], 0, TYPE_ORDER["ts"], -1, "ts", (e[2], e[3])))
-        elif k == "ks":
-            items.append((e[1], 0, TYPE_ORDER["ks"], -1, "ks", (e[2],)))
+        elif k == "ts":      # optional 5th entry: the channel the signature message carries (default: none given, i.e. 0)
+            ch = e[4] if len(e) > 4 else None
+            items.append((e[1], ch or 0, TYPE_ORDER["ts"], -1, "ts", (e[2], e[3]) if ch is None else (e[2], e[3], ch)))
+        elif k == "ks":      # optional 4th entry: channel
+            ch = e[3] if len(e) > 3 else None
+            items.append((e[1], ch or 0, TYPE_ORDER["ks"], -1, "ks", (e[2],) if ch is None else (e[2], ch)))
     items.sort(key=lambda x: x[:4])
     return items
 
@@ -122,8 +124,12 @@ def make_message(kind, payload, time=None):
     if kind == "pc":
         return Message(message_type=MT.PROGRAM_CHANGE, channel=payload[0], program=payload[1], time=time)
     if kind == "ts":
+        if len(payload) > 2:
+            return Message(message_type=MT.TIME_SIGNATURE, channel=payload[2], numerator=payload[0], denominator=payload[1], time=time)
         return Message(message_type=MT.TIME_SIGNATURE, numerator=payload[0], denominator=payload[1], time=time)
     if kind == "ks":
+        if len(payload) > 1:
+            return Message(message_type=MT.KEY_SIGNATURE, channel=payload[1], key=Key(payload[0]), time=time)
         return Message(message_type=MT.KEY_SIGNATURE, key=Key(payload[0]), time=time)
     if kind == "wait":
         return Message(message_type=MT.WAIT, time=payload[0])
@@ -179,9 +185,9 @@ def raw_rel_seq(msgs):
         elif k == "wait":
             out.append(make_message("wait", (m[1],)))
         elif k == "ts":
-            out.append(make_message("ts", (m[1], m[2])))
+            out.append(make_message("ts", tuple(m[1:])))     # ["ts", n, d] or ["ts", n, d, channel]
         elif k == "ks":
-            out.append(make_message("ks", (m[1],)))
+            out.append(make_message("ks", tuple(m[1:])))     # ["ks", key] or ["ks", key, channel]
         elif k == "cc":
             out.append(make_message("cc", (m[1], m[2], m[3])))
         elif k == "pc":
@@ -265,3 +271,72 @@ def piece(rng, ntracks=None, sigs=None, nseg=(1, 3), nbars=(1, 3), lens=None, on
             spec["pad"] = tl
         tracks.append(spec)
     return {"tracks": tracks, "ts": ts_ev, "ks": ks_ev, "bars": bars, "total": total, "meta": meta}
+
+
+# ----------------------------------------------------------------------------- extreme but legal values
+
+def extremify(specs, i):
+    """Re-label the given sequence specs (consistently over all of them, injectively, so that well-formedness and every
+    relation between the events is preserved) to the ends of the legal ranges: channels towards 15, pitches towards 0 / 127
+    (and the playable limits 21 / 108), the softest velocity to 1 and the loudest to 127.  Returns what was done."""
+    import random
+    r = random.Random(f"extreme:{i}")
+    chans = sorted({n[0] for s in specs for n in s.get("notes", [])} |
+                   {e[2] for s in specs for e in s.get("extra", []) if e[0] in ("cc", "pc")})
+    pitches = sorted({n[1] for s in specs for n in s.get("notes", [])})
+    vels = sorted({n[4] for s in specs for n in s.get("notes", [])})
+    ctargets = [15] + r.sample([0, 1, 9, 14, 7, 3], 5)
+    r.shuffle(ctargets)
+    if 15 not in ctargets[:max(1, len(chans))]:
+        ctargets[0] = 15
+    cmap = {c: ctargets[k] for k, c in enumerate(chans)} if len(chans) <= len(ctargets) else {}
+    ptargets = [0, 127, 1, 126, 21, 108, 20, 109]
+    r.shuffle(ptargets)
+    pmap = {p: ptargets[k] for k, p in enumerate(pitches)} if len(pitches) <= len(ptargets) else {}
+    vmap = {}
+    if vels:
+        if 1 not in vels:
+            vmap[vels[0]] = 1
+        if 127 not in vels and len(vels) > 1:
+            vmap[vels[-1]] = 127
+    for s in specs:
+        for n in s.get("notes", []):
+            n[0] = cmap.get(n[0], n[0])
+            n[1] = pmap.get(n[1], n[1])
+            n[4] = vmap.get(n[4], n[4])
+        for e in s.get("extra", []):
+            if e[0] in ("cc", "pc"):
+                e[2] = cmap.get(e[2], e[2])
+    return {"channels": cmap, "pitches": pmap, "velocities": vmap}
+
+
+def restate_signatures(spec, i):
+    """Append a signature event that restates the one in force (a non-note event like any other: only normalise and merge
+    may drop it; files exported by notation programs restate signatures at every section).  Always strictly before the
+    final tick, so the duration and what sits on the final tick stay as the check's own generator decided."""
+    import random
+    r = random.Random(f"restate:{i}")
+    end = end_of(spec)
+    if end < 3:
+        return None
+    extra = spec.setdefault("extra", [])
+    sigs = [e for e in extra if e[0] in ("ts", "ks") and e[1] < end - 1]
+    if sigs and r.random() < 0.6:
+        e = list(r.choice(sigs))
+        t = r.randrange(e[1] + 1, end)
+        # nothing of the same kind in between, otherwise the copy would not restate the one in force
+        if not any(x[0] == e[0] and e[1] < x[1] <= t for x in extra):
+            e[1] = t
+            extra.append(e)
+            return {"restated": e}
+        return None
+    kind = r.choice(["ts", "ks"])
+    t1 = r.randrange(0, end - 1)
+    t2 = r.randrange(t1 + 1, end)
+    if any(x[0] == kind and x[1] >= t1 for x in extra):
+        return None
+    a = ["ts", t1, *r.choice([(3, 4), (4, 4), (6, 8)])] if kind == "ts" else ["ks", t1, r.choice(KEYS)]
+    b = list(a)
+    b[1] = t2
+    extra.extend([a, b])
+    return {"restated": b}
